@@ -358,3 +358,67 @@ func nestExpandCases(r *Rng, n int, cf *CoqFile, st *Stats) {
 	}
 	cf.AddCases("nestx_cases", "sellist * sellist * sellist", "check_nestx", items)
 }
+
+// nestsem_cases: the Coq selector semantics (Nesting.v matches over tree_dom,
+// left-to-right over tabulated sets) against the cascade oracle's matcher
+// (right-to-left backtracking, cascade.go), on random trees; nested selectors
+// with "&" are matched by the oracle through its own nesting context.
+func nestSemCases(r *Rng, n int, cf *CoqFile, st *Stats) {
+	g := &nestGen{r: r}
+	var items []string
+	e := &env{truth: map[string]bool{}, variable: map[string]bool{}, understood: map[string]bool{}}
+	for i := 0; i < n; i++ {
+		d := genDOM(r)
+		for k := range d.nodes {
+			d.nodes[k].ns = ""
+		}
+		var parents [][]nCp
+		var cx []nCp
+		var ctx *selCtx
+		if r.Chance(50) {
+			for k := r.Range(1, 3); k > 0; k-- {
+				parents = append(parents, g.complex(0, false, r.Range(1, 2), 0, false))
+			}
+			for try := 0; ; try++ {
+				cx = g.complex(0, false, r.Range(1, 3), 60, false)
+				if nestCountAmp(cx) > 0 || try > 50 {
+					break
+				}
+			}
+			if nestCountAmp(cx) == 0 {
+				cx[0].amp = true
+			}
+			ctx = &selCtx{sels: parseSelectorList(tokenize(nestListCSS(parents)))}
+		} else {
+			cx = g.complex(0, false, r.Range(1, 4), 0, false)
+		}
+		parsed := parseSelectorList(tokenize(nestComplexCSS(cx)))
+		if len(parsed) != 1 || parsed[0].invalid {
+			failC12(st, "nestsem-unparsed", nestComplexCSS(cx), "invalid", "a valid selector")
+			continue
+		}
+		var nodes, want []string
+		any := false
+		for k := range d.nodes {
+			nd := d.nodes[k]
+			var cls []string
+			for _, c := range nd.classes {
+				cls = append(cls, fmt.Sprint(idOf(nestClasses, c)))
+			}
+			par, prev := "None", "None"
+			if nd.parent >= 0 {
+				par = fmt.Sprintf("(Some %d%%nat)", nd.parent)
+			}
+			if p := d.prevSibling(k); p >= 0 {
+				prev = fmt.Sprintf("(Some %d%%nat)", p)
+			}
+			nodes = append(nodes, fmt.Sprintf("mkN %d [%s] %s %s", idOf(nestTypes, nd.tag), strings.Join(cls, ";"), par, prev))
+			m := d.matchComplex(parsed[0], target{k, ""}, ctx, e)
+			any = any || m
+			want = append(want, fmt.Sprint(m))
+		}
+		items = append(items, fmt.Sprintf("([%s], %s, %s, [%s])", strings.Join(nodes, ";"), nestListCoq(parents), nestComplexCoq(cx), strings.Join(want, ";")))
+		st.Note("nestsem", nestListCSS(parents)+"|"+nestComplexCSS(cx), any)
+	}
+	cf.AddCases("nestsem_cases", "list node * sellist * complex * list bool", "check_nestsem", items)
+}
